@@ -47,6 +47,17 @@ def exact_dp(rows, betas):
     return m, min(2, sum(c for v, c in zip(best, cnt) if v == m))
 
 
+def int_dp(tab, betas):
+    """minimum cost for integer-valued tables / switching costs, exact in int64 (used where K is in the hundreds)"""
+    t = np.asarray(tab).astype(np.int64)
+    best = t[0].copy()
+    K = t.shape[1]
+    off = 1 - np.eye(K, dtype=np.int64)
+    for i in range(1, t.shape[0]):
+        best = (best[:, None] + int(betas[i - 1]) * off).min(axis=0) + t[i]
+    return Fraction(int(best.min()))
+
+
 def brute_force(rows, betas):
     T = len(rows)
     K = len(rows[0])
@@ -98,6 +109,23 @@ def gen_cases(rng, n, tmax, kmax):
         if stream == "layout":
             layout = ["F", "readonly", "view"][int(rng.integers(0, 3))]
         cases.append({"stream": stream, "table": tab, "beta": beta, "btype": btype, "layout": layout, "dtype": dtype})
+    return cases
+
+
+def gen_many_clusters(rng, n):
+    """hundreds of clusters (the property allows any K; the successor table is uint16, so up to 65536): integer-valued
+    tables whose optimal path runs through cluster ids above 255 / 256"""
+    cases = []
+    for i in range(n):
+        K = [255, 256, 257, 300, 700][i % 5]
+        T = int(rng.integers(3, 7))
+        tab = rng.integers(20, 60, size=(T, K)).astype(np.float64)
+        cheap = rng.integers(max(0, K - 60), K, size=T)        # the cheapest cluster of every point has a high id
+        if i % 2:
+            cheap[:] = cheap[0]                                # ... the same one throughout (no switch) every second case
+        tab[np.arange(T), cheap] = rng.integers(0, 5, size=T)
+        beta = float(rng.integers(0, 12)) if i % 3 else rng.integers(0, 12, size=T).astype(np.float64)
+        cases.append({"stream": "manyK", "table": tab, "beta": beta, "btype": "float", "layout": "C", "dtype": "float64"})
     return cases
 
 
@@ -161,11 +189,14 @@ def monitor_case(ctx, case, labels, cost, do_brute):
     if len(labels) != T or any((not isinstance(l, int)) or l < 0 or l >= K for l in labels):
         ctx.violation("monitor", "labels are not T integers in [0,K)", {"case": describe(case), "labels": labels})
         return False, False
-    mn, nopt = exact_dp(rows, betas)
+    if case["stream"] == "manyK":
+        mn, nopt = int_dp(tab, betas), 2
+    else:
+        mn, nopt = exact_dp(rows, betas)
     got = exact_cost(rows, betas, labels)
     M = float(np.sum(np.abs(tab)) + sum(betas))
     slack = Fraction(16 * T * M * 2.0 ** -52)
-    exact_regime = case["stream"] in ("ints", "dtype")
+    exact_regime = case["stream"] in ("ints", "dtype", "manyK")
     if exact_regime:
         slack = Fraction(0)
     ok = True
@@ -201,7 +232,7 @@ def run(ctx):
         {"stream": "ints", "table": np.array([[0., 1.], [1., 0.], [1., 0.], [0., 1.]]), "beta": np.array([0., 3., 0., 7.]), "btype": "float", "layout": "C"},
         {"stream": "real", "table": np.array([[-1e12, 1e-12], [3.5, -2.25]]), "beta": 400.0, "btype": "int", "layout": "C"},
     ]
-    cases = corpus + cases
+    cases = corpus + cases + gen_many_clusters(rng, ctx.budget(10, 40))
     handles = {m: core.start_worker(ctx, "vcheck.props.c01:kernel_batch", cases, mode=m, tag="kern") for m in ("interp", "jit", "nonumba")}
     # interpreted mode additionally in-process under the line tracer (anchored-line coverage)
     cov = core.LineCoverage()
